@@ -107,7 +107,17 @@ def configs(tier, seed):
             longp.append(c)
     if tier != "thorough":
         longp = [c for i, c in enumerate(longp) if (i + seed) % 2 == 0][:4]
-    allc = out + var + bigs + hrrs + longp
+    # TLS 1.3 with a CertificateRequest (answered with a certificate / with none): the client's second flight sits
+    # between the server's Finished and the application keys
+    cauth = []
+    for b in [b for b in reps.values() if b["ver"] == [3, 4]]:
+        for how in ("cert", "nocert"):
+            c = dict(b)
+            c["cauth"] = how
+            cauth.append(c)
+    if tier != "thorough":
+        cauth = [c for i, c in enumerate(cauth) if (i + seed) % 3 == 0][:3]
+    allc = out + var + bigs + hrrs + longp + cauth
     for i, c in enumerate(allc):
         c["case"] = i
     return allc
@@ -200,6 +210,11 @@ def run_case(cfg):
         cextra.update(keyShares=["x25519"], eccCurves=["x25519", "secp256r1"])
         sextra.update(keyShares=["secp256r1"], eccCurves=["secp256r1"])
     f = suites.force(cfg["sid"], ver, cextra, sextra)
+    if cfg.get("cauth"):
+        from ..endpoints import cred
+        f["skw"]["reqCert"] = True
+        if cfg["cauth"] == "cert":
+            f["ckw"]["certChain"], f["ckw"]["privateKey"] = cred("c_rsa")
     p = Pair("c01-%d" % cfg["case"])
     tr = RecTracer()
     tr.emit("CFG", ver=ver[1], cbc=cfg["cbc"], crsl=cfg["crsl"], srsl=cfg["srsl"],
